@@ -89,6 +89,23 @@ def interruptions(obs):
     return out
 
 
+BETWEEN_MESSAGES = (None, "", "sleep", "wait", "running")  # what _run awaits when it is not inside a command's coroutine
+
+
+def inflight_commands(obs):
+    """Commands that were EXECUTING (the engine awaiting inside the command's own coroutine) when a pause or suspension
+    took effect: the known in-flight defect - such a command is neither completed nor (if uncacheable) replayed and the
+    plan's yield receives None after the rewind."""
+    out, cur = [], None
+    for t in obs.timeline:
+        if t[0] == "msg":
+            cur = t[2]
+        elif t[0] == "state" and t[1] in ("pausing", "suspending") and cur not in (None, "pause", "_start_suspender"):
+            if len(t) > 4 and t[3] == "loop" and t[4] not in BETWEEN_MESSAGES:
+                out.append(cur)
+    return out
+
+
 def terminators_before(obs, idx):
     """Names of abort/stop/halt requests (injected or decided by the caller) issued before timeline index idx."""
     out = []
